@@ -69,8 +69,8 @@ class C19(flow.Spec):
                 else:
                     ops.append("D")
             ops.append("D")
-            dest = [0, 1, 2, 2, 3, 4, 4][i % 7]
-            keep = 1 if (dest in (2, 4) and rnd.random() < 0.7) else 0
+            dest = [0, 1, 2, 5, 3, 4, 5][i % 7]
+            keep = 1 if (dest in (2, 4, 5) and rnd.random() < 0.7) else 0
             tags.add("dest-%d" % dest); tags.add("keep-%d" % keep)
             out.append(("backup %d %s %d %d 3" % (len(ops), " ".join(ops), dest, keep), tags))
         # readers inside a read transaction on n different snapshots (WAL: n different read marks)
